@@ -200,8 +200,6 @@ def _arity_full(s, p):
 
 def _actuals(s, p, fill):
     """Kinds of the actual arguments: 'lit', 'none', or ('t', group, formal)."""
-    n = len(s.inputs)
-    var = _is_variadic(s)
     arity = _arity_full(s, p)
     tv = _typevars(s)
     acts = []
@@ -381,9 +379,10 @@ def pair_dtypes(shape):
     return DT_ORDER
 
 
-def pair_dtypes2(shape, d1):
+def pair_dtypes2(shape, d1, full=True):
+    """dtype of the second sibling: only the `two` shape has one; quick tier: same dtype, f32 and i64."""
     if shape == "two":
-        return DT_ORDER
+        return DT_ORDER if full else [d1] + [x for x in ("f32", "i64") if x != d1]
     return [d1]
 
 
